@@ -33,7 +33,8 @@ ASSUMPTIONS = [
     "whitespace only after commas; strings are quoted and identifier-like "
     "(may be empty or look like numbers / True / None)",
     "outputs compared exactly (np.array_equal, NaN==NaN); TF seed re-armed "
-    "before every call; `scale` is not compared in C10",
+    "before the call sequence of every quantizer object; `scale` is not "
+    "compared in C10",
     "a str()/parse failure is reduced to the 1-minimal set of non-default "
     "options (values included) that still shows it; a mismatch is attributed "
     "to the options the re-parsed quantizer lost (behavioural test against a "
